@@ -253,6 +253,8 @@ def gen_spec(rng: random.Random, kind: str, big: bool = False, fmt=None):
 def gen_variant(rng: random.Random, kind: str):
     v = {"dtype": rng.choice(["f4", "f8"]), "order": rng.choice(["C", "C", "F", "strided"]),
          "endian": rng.choice(["<", "<", "<", ">"])}
+    if v["dtype"] == "f8" and rng.random() < 0.5:
+        v["jitter"] = True      # float64 values with more precision than the 32-bit fields can hold
     if kind in ("data3D", "force3D"):
         v["via"] = rng.choice(["add", "assign"])
     if kind == "data3D":
